@@ -54,6 +54,8 @@ func (_this *Reader) Init(config *configuration.Configuration) {
 
 func (_this *Reader) SetReader(reader io.Reader) {
 	_this.reader = reader
+	// A new reader is a new document
+	_this.bytesRead = 0
 }
 
 func (_this *Reader) ReadUint8() uint8 {
